@@ -115,6 +115,8 @@ def run_one(rng, counters):
             "edge_ins": rng.choice([0.0, 0.5]),
             "qual_mode": rng.choice(["const", "random"]),
             "companions": rng.choice([0.0, 0.0, 0.4, 0.8]),
+            # with a reference two neighbouring indels have no unique representation; CIGAR-based detection has no such excuse
+            "companion_kinds": ("snv",) if use_ref else ("snv", "ins", "del"),
         }
         sim = genome.simulate(rng, tmp, p)
         desc = {"params": p, "use_ref": use_ref}
